@@ -423,6 +423,7 @@ class Ctor:
 class Union(Sort):
   """Tagged union of Python values (an algebraic datatype in SMT)."""
   _cache: dict = {}
+  _shapes: dict = {}
 
   def __init__(self, name, ctors, abstract=None, concretise=None, enumerate=None):
     self.name = name
@@ -437,11 +438,16 @@ class Union(Sort):
 
   def z3(self):
     USED_SORTS.add(self.name)
+    shape = tuple((c.name, tuple((fn, fs if fs == 'SELF' else fs.name) for fn, fs in c.fields)) for c in self.ctors.values())
     if self.name not in Union._cache:
       d = z3.Datatype(self.name)
       for c in self.ctors.values():
         d.declare(c.name, *[(f'{c.name}_{fn}', d if fs == 'SELF' else fs.z3()) for fn, fs in c.fields])
       Union._cache[self.name] = d.create()
+      Union._shapes[self.name] = shape
+    elif Union._shapes.get(self.name) != shape:
+      # two sidecar modules declared different unions under one name: a checker error, never a verdict
+      raise RuntimeError(f'two different union sorts are both named {self.name!r}: {Union._shapes.get(self.name)} vs {shape}')
     return Union._cache[self.name]
 
   def is_(self, ctor, t):
